@@ -327,6 +327,8 @@ struct Exec<'a> {
     session_clean: bool,
     /// images of earlier restarts of this run (for the lost-write corruption)
     earlier_images: Vec<Vec<u8>>,
+    /// a catalog table was edited through a query: the model no longer describes the file
+    catalog_edited: bool,
 }
 
 fn fault_free() -> DiskCfg {
@@ -534,7 +536,7 @@ impl<'a> Exec<'a> {
     }
 
     fn observe(&mut self, phase: Phase) {
-        if self.tainted || !self.cfg.oracles || self.done {
+        if self.tainted || !self.cfg.oracles || self.done || self.catalog_edited {
             return;
         }
         if self.pkg.is_none() {
@@ -854,7 +856,7 @@ impl<'a> Exec<'a> {
         }
         let deletes_entry = matches!(op, Op::RemoveStream { .. } | Op::DropTable { .. } | Op::RemoveSignature);
         let handles_live = !self.writers.is_empty();
-        let expect = self.expectation(op);
+        let expect = if self.catalog_edited { Expect::Either } else { self.expectation(op) };
         let check = self.cfg.oracles && !self.tainted;
         let stream_op = matches!(op, Op::WriteStream { .. } | Op::RemoveStream { .. } | Op::RemoveSignature);
         // snapshot before any call that may be refused
@@ -1686,7 +1688,75 @@ impl<'a> Exec<'a> {
         }
         match &rec.op {
             Op::Restart { mode, edits } => {
+                if self.catalog_edited {
+                    // the model cannot say what a reopen reports after a catalog edit
+                    return;
+                }
                 self.restart(*mode, edits);
+                return;
+            }
+            Op::CatalogEdit { table, column, nullable, min, max } => {
+                self.disk.borrow_mut().hard_fault_fired = false;
+                let pkg = self.pkg.as_mut().unwrap();
+                let iv = |v: &Option<i32>| v.map(Value::Int).unwrap_or(Value::Null);
+                let q = Update::table("_Validation")
+                    .set("Nullable", Value::from(if *nullable { "Y" } else { "N" }))
+                    .set("MinValue", iv(min))
+                    .set("MaxValue", iv(max))
+                    .with(Expr::col("Table").eq(Expr::string(table.as_str())).and(Expr::col("Column").eq(Expr::string(column.as_str()))));
+                match guarded(|| pkg.update_rows(q)) {
+                    Caught::Panic(loc, msg) => self.panic_violation("catalog_edit", loc, msg, false),
+                    Caught::Val(Ok(())) => {
+                        self.catalog_edited = true;
+                        self.stats.probe("catalog_edited_by_query");
+                    }
+                    Caught::Val(Err(_)) => {
+                        if self.disk.borrow().hard_fault_fired {
+                            self.any_hard_fault = true;
+                            self.tainted = true;
+                            self.stats.tainted = true;
+                        }
+                    }
+                }
+                return;
+            }
+            Op::Select { table, cols, cond } if self.catalog_edited => {
+                // a refused select changes nothing either (the library compared with itself)
+                if !self.cfg.oracles || self.tainted {
+                    return;
+                }
+                let before = match self.working_snapshot() {
+                    Some(s) => s,
+                    None => return,
+                };
+                let pkg = self.pkg.as_mut().unwrap();
+                let mut q = Select::table(table.as_str());
+                if !cols.is_empty() {
+                    q = q.columns(&cols.iter().map(|c| c.as_str()).collect::<Vec<_>>());
+                }
+                if let Some(c) = cond {
+                    q = q.with(cond_expr(c));
+                }
+                let refused = match guarded(|| pkg.select_rows(q).map(|r| r.count())) {
+                    Caught::Panic(loc, msg) => {
+                        self.panic_violation("select", loc, msg, false);
+                        return;
+                    }
+                    Caught::Val(r) => r.is_err(),
+                };
+                if refused {
+                    self.stats.rejected += 1;
+                    self.stats.rejected_ids.push(self.cur_id);
+                    self.stats.probe("refused_select_after_catalog_edit");
+                    if let Some(after) = self.working_snapshot() {
+                        self.stats.oracle_evals += 1;
+                        if before != after {
+                            let what = describe_snap_diff(&before, &after);
+                            self.viol("C04.err-unchanged", "select", format!("refused select changed the package: {} [{}]", what, brief_op(&rec.op)));
+                            self.done = true;
+                        }
+                    }
+                }
                 return;
             }
             Op::Join { left, right, lcol, rcol, outer } => {
@@ -1899,6 +1969,7 @@ pub fn run(trace: &Trace, cfg: &ExecCfg) -> RunResult {
         any_hard_fault_non_flush: false,
         session_clean: false,
         earlier_images: Vec::new(),
+        catalog_edited: false,
     };
     match &trace.init {
         Init::Create(pt) => {
@@ -1947,7 +2018,7 @@ pub fn run(trace: &Trace, cfg: &ExecCfg) -> RunResult {
     // An API-level divergence ended the run: what would a save put on the
     // medium now?  (The saved bytes are C08's and C10's business even when
     // the divergence itself belongs to another property.)
-    if ex.done && cfg.oracles && !ex.tainted && !ex.byte_level_failed && ex.writers.is_empty() && !ex.violations.is_empty()
+    if ex.done && cfg.oracles && !ex.tainted && !ex.catalog_edited && !ex.byte_level_failed && ex.writers.is_empty() && !ex.violations.is_empty()
         && !ex.violations.iter().any(|v| v.check.ends_with(".panic") || v.check.ends_with(".hang"))
     {
         if let Some(p) = ex.pkg.as_mut() {
@@ -2002,7 +2073,8 @@ pub fn run(trace: &Trace, cfg: &ExecCfg) -> RunResult {
     ex.retire_disk();
     violations.append(&mut ex.violations);
     let tainted = ex.tainted;
+    let no_model = ex.tainted || ex.catalog_edited;
     let mut stats = ex.stats;
     stats.tainted = tainted;
-    RunResult { violations, stats, final_image, model: if tainted { None } else { Some(ex.model) } }
+    RunResult { violations, stats, final_image, model: if no_model { None } else { Some(ex.model) } }
 }
